@@ -1754,4 +1754,237 @@ def jsonUnfixed (s : St) (c k : Nat) : St := (write { writeCT s ctJSON with stat
 example : ¬ Inv (jsonUnfixed (step (init 200 100) (.blob 200 1 2)).1 500 2) := by
   intro h; have := (h.sent (by decide)).1; revert this; decide
 
+/-! ## a writer that refuses invalid status codes (round 5)
+
+`stepS strict` is what the driver runs.  For a writer that accepts every code (`strict =
+false`), for a committed response and for valid codes it IS `step`, so every theorem above
+applies to what the driver computes.  On a refusing writer an invalid code aborts the commit. -/
+
+theorem stepS_lenient (s : St) (op : Op) : stepS false s op = step s op := rfl
+
+theorem runS_lenient (s : St) (prog : List Op) : runS false s prog = run s prog := rfl
+
+theorem runSnapsS_lenient (s : St) (prog : List Op) : runSnapsS false s prog = runSnaps s prog := by
+  induction prog generalizing s with
+  | nil => rfl
+  | cons o os ih => simp [runSnapsS, runSnaps, stepS_lenient, ih]
+
+/-- the driver's function on a lenient writer is the proven one -/
+theorem runSeqObsS_lenient (cap : Nat) (fl : Bool) (s : St) (progs : List (List Op)) :
+    runSeqObsS false cap fl s progs = runSeqObs cap fl s progs := by
+  induction progs generalizing s with
+  | nil => rfl
+  | cons p ps ih => simp [runSeqObsS, runSeqObs, runSnapsS_lenient, ih]
+
+theorem stepS_committed (b : Bool) {s : St} (hc : s.committed = true) (op : Op) :
+    stepS b s op = step s op := by
+  simp [stepS, hc]
+
+/-- valid codes never meet the refusal -/
+theorem stepS_valid (b : Bool) (s s' : St) (op : Op) (c : Nat)
+    (ha : commitAttempt s op = some (s', c)) (hv : validCode c = true) :
+    stepS b s op = step s op := by
+  unfold stepS
+  split
+  · simp [ha, hv]
+  · rfl
+
+/-- the helper's preparations before its `WriteHeader` call touch neither the writer nor the
+    hooks nor the recording -/
+theorem commitAttempt_frame {s s' : St} {op : Op} {c : Nat} (ha : commitAttempt s op = some (s', c)) :
+    s'.raw = s.raw ∧ s'.committed = s.committed ∧ s'.size = s.size ∧ s'.before = s.before ∧
+    s'.after = s.after ∧ s'.trace = s.trace := by
+  have hw : ∀ v, (writeCT s v).raw = s.raw ∧ (writeCT s v).committed = s.committed ∧
+      (writeCT s v).size = s.size ∧ (writeCT s v).before = s.before ∧
+      (writeCT s v).after = s.after ∧ (writeCT s v).trace = s.trace := by
+    intro v; unfold writeCT; split <;> simp
+  cases op <;> simp only [commitAttempt, Option.some.injEq, Prod.mk.injEq] at ha <;>
+    (try (simp at ha; done))
+  case writeHeader => obtain ⟨rfl, _⟩ := ha; simp
+  case noContent => obtain ⟨rfl, _⟩ := ha; simp
+  case write => obtain ⟨rfl, _⟩ := ha; simp
+  case flush => obtain ⟨rfl, _⟩ := ha; simp
+  case flushRC => obtain ⟨rfl, _⟩ := ha; simp
+  case flushFE => obtain ⟨rfl, _⟩ := ha; simp
+  case copy ch e =>
+    split at ha
+    · simp at ha
+    · simp only [Option.some.injEq, Prod.mk.injEq] at ha; obtain ⟨rfl, _⟩ := ha; simp
+  case json c' k ok =>
+    split at ha
+    · simp only [Option.some.injEq, Prod.mk.injEq] at ha; obtain ⟨rfl, _⟩ := ha; simpa using hw ctJSON
+    · simp at ha
+  case blob c' ct n => obtain ⟨rfl, _⟩ := ha; exact hw ct
+  case stream => obtain ⟨rfl, _⟩ := ha; exact hw ctStream
+  case xmlBlob => obtain ⟨rfl, _⟩ := ha; exact hw ctXML
+  case xml => obtain ⟨rfl, _⟩ := ha; exact hw ctXML
+  case jsonpBlob => obtain ⟨rfl, _⟩ := ha; exact hw ctJS
+  case jsonp => obtain ⟨rfl, _⟩ := ha; exact hw ctJS
+  case render c' n ok =>
+    split at ha
+    · simp only [Option.some.injEq, Prod.mk.injEq] at ha; obtain ⟨rfl, _⟩ := ha; exact hw ctHTML
+    · simp at ha
+
+/-- **C06_refused_commit** — on a writer that refuses invalid codes, an operation whose commit
+    carries one leaves: `Committed = false`, the writer untouched (no call recorded, nothing
+    sent, no byte), `Size` unchanged, `Status` = the refused code, the before-hooks run once
+    (in order) and nothing else recorded; the operation fails.  In particular `Committed` still
+    tells the truth about the headers. -/
+theorem C06_refused_commit {s s' : St} {op : Op} {c : Nat} (hc : s.committed = false)
+    (ha : commitAttempt s op = some (s', c)) (hv : validCode c = false) :
+    let r := stepS true s op
+    r.1.committed = false ∧ r.1.raw = s.raw ∧ r.1.size = s.size ∧ r.1.status = c ∧
+    r.1.trace = s.trace ++ s.before.map .runB ∧ r.2.err = true := by
+  obtain ⟨f1, f2, f3, f4, _, f6⟩ := commitAttempt_frame ha
+  simp [stepS, hc, ha, hv, abortCommit, emit, f1, f2, f3, f4, f6]
+
+/-- the invariant survives a refused commit as long as no before-hook is registered … -/
+theorem inv_stepS_nohooks (b : Bool) {s : St} (h : Inv s) (hb : s.before = []) (op : Op) :
+    Inv (stepS b s op).1 := by
+  unfold stepS
+  split
+  · rename_i hg
+    have hc : s.committed = false := by
+      cases hcm : s.committed <;> simp_all
+    split
+    · rename_i s' c ha
+      split
+      · exact inv_step h op
+      · obtain ⟨f1, f2, f3, f4, f5, f6⟩ := commitAttempt_frame ha
+        have h' : Inv s' :=
+          { comm := by rw [f1, f2]; exact h.comm
+            sent := by rw [f2]; intro hx; simp [hc] at hx
+            unsent := by rw [f1, f2]; exact h.unsent
+            size := by rw [f1, f3]; exact h.size
+            trace := by rw [f6]; have := h.trace; simpa [scanOf, f2, f4, f5] using this
+            bodyTrace := by rw [f1, f6]; exact h.bodyTrace
+            hdrTrace := by rw [f1, f6]; exact h.hdrTrace }
+        have := inv_setStatus h' (by rw [f2]; exact hc) c
+        simpa [abortCommit, emit, f4, hb] using this
+    · exact inv_step h op
+  · exact inv_step h op
+
+theorem writeHeader_before (s : St) (c : Nat) : (writeHeader s c).before = s.before := by
+  unfold writeHeader
+  split
+  · simp [emit]
+  · simp only [emit, rawWriteHeader, rawSend]
+    split <;> rfl
+
+theorem ensureCommitted_before (s : St) : (ensureCommitted s).before = s.before := by
+  unfold ensureCommitted
+  split
+  · rfl
+  · split <;> simp [writeHeader_before]
+
+theorem write_before (s : St) (n : Nat) : (write s n).1.before = s.before := by
+  simp only [write, rawWrite, rawImplicit, emit]
+  split <;> simp [ensureCommitted_before, rawSend]
+
+theorem writes_before (s : St) (l : List Nat) : (writes s l).1.before = s.before := by
+  induction l generalizing s with
+  | nil => rfl
+  | cons n ns ih =>
+    simp only [writes]
+    split
+    · simpa using write_before s n
+    · rw [ih]; exact write_before s n
+
+theorem flush_before (s : St) : (flush s).before = s.before := by
+  simp only [flush, rawFlush, rawImplicit, emit]
+  split
+  · split <;> simp [ensureCommitted_before, rawSend]
+  · exact ensureCommitted_before s
+
+theorem writeCT_before (s : St) (v : Nat) : (writeCT s v).before = s.before := by
+  unfold writeCT; split <;> rfl
+
+def isBefore : Op → Bool
+  | .before _ => true
+  | _ => false
+
+/-- only `Response.Before` registers before-hooks -/
+theorem step_before (s : St) (op : Op) (hop : isBefore op = false) : (step s op).1.before = s.before := by
+  cases op <;> simp only [isBefore] at hop <;> simp only [step]
+  case before => cases hop
+  case writeHeader => exact writeHeader_before _ _
+  case write => exact write_before _ _
+  case flush => exact flush_before _
+  case after => simp [emit]
+  case json c k ok =>
+    split
+    · rw [write_before]; split <;> simp [emit, writeCT_before]
+    · split <;> simp [emit, writeCT_before]
+  case blob => rw [write_before, writeHeader_before, writeCT_before]
+  case noContent => exact writeHeader_before _ _
+  case redirect => split <;> simp [writeHeader_before]
+  case stream => rw [writes_before, writeHeader_before, writeCT_before]
+  case xmlBlob => rw [writes_before, writeHeader_before, writeCT_before]
+  case jsonpBlob => rw [writes_before, writeHeader_before, writeCT_before]
+  case flushRC => exact flush_before _
+  case flushFE => exact flush_before _
+  case copy => exact writes_before _ _
+  case jsonp => rw [writes_before, writeHeader_before, writeCT_before]
+  case xml => rw [writes_before, writeHeader_before, writeCT_before]
+  case render c n ok =>
+    split
+    · rw [write_before, writeHeader_before, writeCT_before]
+    · rfl
+  case file found n disp ct =>
+    split
+    · rw [writes_before, writeHeader_before, writeCT_before]; split <;> rfl
+    · split <;> rfl
+
+theorem stepS_before (b : Bool) (s : St) (op : Op) (hop : isBefore op = false) :
+    (stepS b s op).1.before = s.before := by
+  unfold stepS
+  split
+  · split
+    · rename_i s' c ha
+      split
+      · exact step_before s op hop
+      · simp [abortCommit, emit, (commitAttempt_frame ha).2.2.2.1]
+    · exact step_before s op hop
+  · exact step_before s op hop
+
+/-- **C06_inv_strict_nohooks** — … so for every program that registers no before-hook the
+    bookkeeping invariant holds on a refusing writer too, whatever codes it uses and however
+    often its commits are refused (the program going on after each refusal, as under Recover). -/
+theorem C06_inv_strict_nohooks (p cap : Nat) (fl : Bool) (prog : List Op)
+    (hp : ∀ op ∈ prog, isBefore op = false) : Inv (runS true (init p cap fl) prog) := by
+  suffices H : ∀ (s : St), Inv s → s.before = [] → Inv (runS true s prog) from
+    H _ (inv_init p cap fl) rfl
+  induction prog with
+  | nil => intro s h _; exact h
+  | cons op ops ih =>
+    intro s h hb
+    have hop := hp op (List.mem_cons_self)
+    exact ih (fun o ho => hp o (List.mem_cons_of_mem _ ho)) _ (inv_stepS_nohooks true h hb op)
+      ((stepS_before true s op hop).trans hb)
+
+/-! With a before-hook registered the full invariant FAILS after a refused commit: the hook has
+run, the headers have not gone out, and the hook will run again at the next commit (under
+Recover: when the error handler sends its 500).  The harness therefore does not combine
+refusing writers with before-hooks in C06 (reported as an observation in DELIVERY-r5). -/
+example : ¬ Inv (runS true (init 200 9) [.before 1, .writeHeader 0]) := by
+  intro h; have := h.trace; revert this; decide
+example : (runS true (init 200 9) [.before 1, .writeHeader 0, .writeHeader 500]).trace
+    = [.regB 1, .runB 1, .runB 1, .hdr 500] := by decide
+
+/-- non-vacuity: a refused `String(0, …)` (zero-valued config field) leaves an uncommitted,
+    untouched response with `Status = 0`; the following `Write` sends 200 -/
+example : let s := runS true (init 200 9) [.blob 0 1 2]
+    s.committed = false ∧ s.raw.calls = [] ∧ s.raw.sent = none ∧ s.status = 0 ∧ s.ct = 1 := by decide
+example : (runS true (init 200 9) [.blob 0 1 2, .write 1]).raw.sent = some 200 := by decide
+/-- a refused 1000 stays pending: the next implicit commit is refused again -/
+example : (runS true (init 200 9) [.noContent 1000, .write 1, .flush]).raw.calls = [] ∧
+    (runS true (init 200 9) [.noContent 1000, .write 1, .writeHeader 204]).raw.calls = [204] := by decide
+/-- an accepting writer sends whatever it is given, and `Status` says so -/
+example : let s := runS false (init 200 9) [.noContent 1000, .writeHeader 204]
+    s.raw.sent = some 1000 ∧ s.status = 1000 ∧ s.raw.calls = [1000] := by decide
+/-- the hypotheses of `C06_refused_commit` -/
+example : commitAttempt (init 200 9) (.json 99 4 true) = some ({ writeCT (init 200 9) ctJSON with status := 99 }, 99) ∧
+    validCode 99 = false ∧ validCode 0 = false ∧ validCode 1000 = false ∧ validCode 100 = true ∧ validCode 999 = true := by
+  decide
+
 end C06
